@@ -8,7 +8,7 @@ namespace CM
 what the left bag computes under that name, stays an input if the left bag passes it on from further upstream
 (virtual name), and is unreachable otherwise. -/
 inductive Glue (l : Bag) : BTerm → BTerm → Prop
-  | fed {x o t} : o ∈ l.outputs → o.name = x → Den l o t → Glue l (.inp x) t
+  | fed {x o t} : o ∈ l.outputs → o.name = x → BDen l o t → Glue l (.inp x) t
   | virt {x} : x ∉ names l.outputs → l.virt.mem x = true → Glue l (.inp x) (.inp x)
   | cut {x} : x ∉ names l.outputs → l.virt.mem x = false → Glue l (.inp x) (.missing x)
   | missing {x} : Glue l (.missing x) (.missing x)
@@ -89,7 +89,7 @@ theorem lv_edge_exists {n : BNode} (hn : n ∈ r.inputs) (hv : l.virt.mem n.name
   have := (cloneEdges_spec true (lvNodes l r) r.next).2.2.2.2.2 n (mem_lvNodes.2 ⟨hn, hv⟩)
   simpa [lvPart] using this
 
-theorem den_input_inv {b : Bag} {n : BNode} {t : BTerm} (hi : n ∈ b.inputs) (h : Den b n t) : t = .inp n.name := by
+theorem den_input_inv {b : Bag} {n : BNode} {t : BTerm} (hi : n ∈ b.inputs) (h : BDen b n t) : t = .inp n.name := by
   cases h with
   | input _ => rfl
   | missing hn _ => exact absurd hi hn
@@ -104,8 +104,8 @@ theorem of_name_mem_names {ns : List BNode} {x : String} (h : x ∈ names ns) : 
 
 /-- **Gluing, from the connected bag to its parts**: what a node of the right bag computes in the connected bag is
 what it computes in the right bag, with the inputs fed by the left bag. -/
-theorem den_right_to (h : Sep l r) {n : BNode} {t : BTerm} (hc : Den (connected l r) n t) (hn : InR l r n) :
-    ∃ t0, Den r n t0 ∧ Glue l t0 t := by
+theorem den_right_to (h : Sep l r) {n : BNode} {t : BTerm} (hc : BDen (connected l r) n t) (hn : InR l r n) :
+    ∃ t0, BDen r n t0 ∧ Glue l t0 t := by
   induction hc with
   | @input n hi => exact absurd hi (not_input_of_inR h hn)
   | @missing n hni hno =>
@@ -157,7 +157,7 @@ theorem den_right_to (h : Sep l r) {n : BNode} {t : BTerm} (hc : Den (connected 
   | @edge n ts e hni he ho hk hlen hp ih =>
     rcases edge_into_right h he (ho ▸ hn) with h1 | h1 | h1
     · have hnr : n ∉ r.inputs := fun hin => h.wr.inLeaf n hin e h1 ho
-      obtain ⟨ts0, hl0, hd, hg⟩ := zip_choice (Den r) (Glue l) e.ins ts hlen
+      obtain ⟨ts0, hl0, hd, hg⟩ := zip_choice (BDen r) (Glue l) e.ins ts hlen
         (fun p hp' => ih p hp' (h.r_id (nodes3_ein h1 (List.of_mem_zip hp').1)))
       exact ⟨.node e.edge ts0, .edge e hnr h1 ho hk hl0 hd, .node (hl0.symm.trans hlen) hg⟩
     · obtain ⟨o, _, i, _, _, rfl⟩ := mem_common h1
@@ -179,8 +179,8 @@ theorem no_edge_into_right_input (h : Sep l r) {n : BNode} (hn : InR l r n)
     exact hv m hm (hout.symm.trans ho)
 
 /-- **Gluing, from the parts to the connected bag.** -/
-theorem den_right_of (h : Sep l r) {n : BNode} {t0 : BTerm} (hd : Den r n t0) :
-    ∀ {t : BTerm}, InR l r n → Glue l t0 t → Den (connected l r) n t := by
+theorem den_right_of (h : Sep l r) {n : BNode} {t0 : BTerm} (hd : BDen r n t0) :
+    ∀ {t : BTerm}, InR l r n → Glue l t0 t → BDen (connected l r) n t := by
   induction hd with
   | @input n hin =>
     intro t hn hg
@@ -195,7 +195,7 @@ theorem den_right_of (h : Sep l r) {n : BNode} {t0 : BTerm} (hd : Den r n t0) :
       obtain ⟨c, hcl, hcn, hce⟩ := lv_edge_exists (l := l) hin hv
       have hcin : c ∈ (connected l r).inputs := by
         simp only [connected_inputs, List.mem_append]; exact Or.inr hcl
-      have := Den.input (b := connected l r) hcin
+      have := BDen.input (b := connected l r) hcin
       rw [hcn] at this
       exact .ident (identityEdge c n) hni (mem_connected_edges.2 (Or.inr (Or.inr (Or.inr (Or.inl hce))))) rfl rfl rfl this
     | cut hx hv =>
@@ -231,7 +231,7 @@ theorem den_right_of (h : Sep l r) {n : BNode} {t0 : BTerm} (hd : Den r n t0) :
 /-- **Gluing**: in the connected bag a node of the right bag computes exactly its own term with the inputs fed by the
 left bag. -/
 theorem den_right (h : Sep l r) {n : BNode} (hn : InR l r n) (t : BTerm) :
-    Den (connected l r) n t ↔ ∃ t0, Den r n t0 ∧ Glue l t0 t :=
+    BDen (connected l r) n t ↔ ∃ t0, BDen r n t0 ∧ Glue l t0 t :=
   ⟨fun hc => den_right_to h hc hn, fun ⟨_, hd, hg⟩ => den_right_of h hd hn hg⟩
 
 end
